@@ -31,23 +31,54 @@ import deck as deckmod
 import c06_gen
 from common import cz, cstr, clist, cfloat, copt, cpair
 
-THEOREMS = ['C06_indices_first_fastest', 'C06_items_array',
-            'C06_items_array_3d', 'C06_homogeneous_fill',
-            'C06_reciprocal_dual', 'C06_square_base_vectors',
-            'C06_square_base_vectors_translate', 'C06_outward_sense',
-            'C06_square_errors', 'C06_compose_transform_point',
-            'C06_develop_lattice_located', 'C06_develop_lattice_complete',
-            'C06_dimension_checks_spec', 'C06_degenerate_ranges_developed',
-            'C06_square_sides_irrelevant', 'C06_develop_lattice_square',
-            'C06_extract_surfaces', 'C06_parse_ranges_spelled',
-            'C06_parse_lattice_option', 'C06_getitem_tuple_last_fastest',
-            'C06_parse_fill_kw_array', 'C06_parse_fill_kw_short_and_shapes',
-            'C06_array_entry_transformation_refuted',
-            'C06_lattice_end_to_end', 'C06_lattice_end_to_end_3d',
-            'C06_lattice_end_to_end_1d_2d', 'C06_lattice_end_to_end_linked',
-            'C06_link_inverse_satisfiable', 'C06_lattice_end_to_end_conv_linked',
-            'C06_fill_array_read_as_mcnp',
-            'C06_parse_fill_kw_flat', 'C06_tokenize_fill_array']
+THEOREMS = ['C06_family_index', 'C06_family_numeric', 'C06_family_develop',
+            'C06_family_text', 'C06_family_linked']
+# the members of the families (coq/Properties/C06.v): each family is literally
+# the conjunction of its members' statements
+MEMBERS = {
+    'C06_family_index': [
+        'C06_indices_first_fastest',
+        'C06_items_array',
+        'C06_items_array_3d',
+        'C06_getitem_tuple_last_fastest',
+        'C06_homogeneous_fill',
+        'C06_dimension_checks_spec',
+    ],
+    'C06_family_numeric': [
+        'C06_reciprocal_dual',
+        'C06_square_base_vectors',
+        'C06_square_base_vectors_translate',
+        'C06_outward_sense',
+        'C06_square_sides_irrelevant',
+        'C06_square_errors',
+        'C06_compose_transform_point',
+    ],
+    'C06_family_develop': [
+        'C06_develop_lattice_located',
+        'C06_develop_lattice_complete',
+        'C06_degenerate_ranges_developed',
+        'C06_develop_lattice_square',
+        'C06_extract_surfaces',
+        'C06_lattice_end_to_end',
+        'C06_lattice_end_to_end_3d',
+        'C06_lattice_end_to_end_1d_2d',
+    ],
+    'C06_family_text': [
+        'C06_parse_ranges_spelled',
+        'C06_parse_lattice_option',
+        'C06_parse_fill_kw_array',
+        'C06_parse_fill_kw_short_and_shapes',
+        'C06_array_entry_transformation_refuted',
+        'C06_fill_array_read_as_mcnp',
+        'C06_parse_fill_kw_flat',
+        'C06_tokenize_fill_array',
+    ],
+    'C06_family_linked': [
+        'C06_lattice_end_to_end_linked',
+        'C06_lattice_end_to_end_conv_linked',
+        'C06_link_inverse_satisfiable',
+    ],
+}
 TRUSTED = [
     'hand-written model coq/C06/Model.v (modelled, tied by execution only)',
     'cells, surfaces other than planes and the effect of a transformation on a '
@@ -697,6 +728,7 @@ def run(res, tier, seed, proofs_ok):
                       {'theorem_or_correspondence': 'coverage',
                        'input': {'lines': [list(m) for m in missing[:20]]}},
                       found_input=False)
+    res.extra['family_members'] = MEMBERS
     res.extra['tier_depth'] = (
         'quick: 1x direct-call streams (150-300 cases each), bounds '
         'exhaustive for 1-2 ranges (156), 240 random + 32 corpus valid decks, '
